@@ -250,6 +250,11 @@ def check_uci(pid, tier, seed):
         ["go", "go", "fin", "quit"], ["position term", "go", "isready", "position open", "go", "fin", "quit"],
         ["position open", "go", "isready", "isready", "stop", "stop", "go", "quit"],
     ]
+    # isready during a long search: readyok must come before that search's bestmove
+    for j in range(4 if quick else 40):
+        pc = pool.position_cmd("open")
+        sessions.append((200000 + j, True, "immediate", [pc, {"kind": "go", "line": "go movetime 2500", "long": True}, {"kind": "isready", "line": "isready"},
+                                                            {"kind": "stop", "line": "stop"}, {"kind": "quit", "line": "quit"}]))
     for j, cmdsq in enumerate(extra * (1 if quick else 10)):
         sessions.append((100000 + j, True, "immediate", concretize({"start": "book", "cmds": cmdsq}, pool, rnd)))
     traces = run_sessions(cli, wd, "uci", sessions)
